@@ -149,6 +149,13 @@ impl Axecutor {
 
             let read_end = rand::thread_rng().gen::<u16>() as u64 + 1024;
             let write_end = rand::thread_rng().gen::<u16>() as u64 + 1024;
+            // verification hook: deterministic descriptor numbers (the k-th pipe gets 1024+2k / 1025+2k)
+            #[cfg(ax_verif)]
+            let (read_end, write_end) = {
+                let _ = (read_end, write_end);
+                let n = ax.state.syscalls.pipes_read_ends.len() as u64;
+                (1024 + 2 * n, 1025 + 2 * n)
+            };
             assert_fatal!(
                 !ax.state.syscalls.pipes_read_ends.contains_key(&read_end),
                 "Duplicate read end for pipe"
